@@ -207,7 +207,7 @@ LumpIsMatVec == ph = "done" /\ call.op = "lump_rows" => out.vres = MatVec(X.m, X
 (***************************************************************************)
 (* emission                                                                 *)
 (***************************************************************************)
-J(Mx) == [mb |-> Mx.mb, nb |-> Mx.nb, bh |-> Mx.bh, bw |-> Mx.bw, rep |-> RepOf(Mx), dense |-> Mx.dense,
+J(Mx) == [mb |-> Mx.mb, nb |-> Mx.nb, bh |-> Mx.bh, bw |-> Mx.bw, rep |-> RepOf(Mx),
           nnz |-> Cardinality(Mx.pat), arrayless |-> Mx.arrayless]
 Emit == ph = "done" =>
   PrintT(ToJson([fmt |-> Fmt, grp |-> Group, pal |-> Palette, op |-> call.op, an |-> call.an, ad |-> call.ad, self |-> call.self,
